@@ -305,6 +305,40 @@ def facts(prog: Program, fi: FuncInfo, node: ast.AST) -> Set[Tuple[str, str, str
     return out
 
 
+def branch_values(prog: Program, fi: FuncInfo, e: ast.AST) -> List[Tuple[ast.AST, Set[Tuple[str, str, str]]]]:
+    """The values `e` can stand for, each with the facts that select it: a conditional expression contributes its two arms
+    (with the atoms of its test), a local name every reaching definition (with the facts in force at the assignment).
+    `x = a if c else b` and `if c: x = a` / `else: x = b` give the same answer."""
+    out: List[Tuple[ast.AST, Set[Tuple[str, str, str]]]] = []
+
+    def expand(v, fs, depth):
+        if isinstance(v, ast.IfExp) and depth < 6:
+            expand(v.body, fs | set(atoms_of(v.test, True)), depth + 1)
+            expand(v.orelse, fs | set(atoms_of(v.test, False)), depth + 1)
+        elif isinstance(v, ast.Name) and depth < 6:
+            ds = [d for d in prog.reaching(fi, v.id, v) if d.kind in ("assign", "annassign") and d.value is not None and d.element()[1] is None]
+            if ds and len(ds) == len(prog.reaching(fi, v.id, v)):
+                for d in ds:
+                    expand(d.element()[0], fs | set(facts(prog, fi, d.binder)), depth + 1)
+            else:
+                out.append((v, fs))
+        else:
+            out.append((v, fs))
+    expand(e, set(), 0)
+    return out
+
+
+def ext_name(prog: Program, where_, e: ast.AST) -> str:
+    """Dotted name an expression resolves to through the module's imports ('' when it does not): `Transform`,
+    `transform.Transform` and `fontTools.misc.transform.Transform` are the same thing to a rule that asks this way."""
+    mi = where_.module if isinstance(where_, FuncInfo) else where_
+    cls = prog._class_ctx(where_) if isinstance(where_, FuncInfo) else None
+    try:
+        return prog.ix.resolve_expr(mi, e, cls) or ""
+    except Exception:
+        return ""
+
+
 def has_fact(fs, op: str, left_contains: str = "", right_contains: str = "") -> bool:
     """Symmetric for eq/ne."""
     for o, l, r in fs:
